@@ -345,4 +345,267 @@ def h_option_flatten(pattern, deep):
 
 
 def jobs_for(prop, tier):
-    return {'C05': jobs_c05, 'C09': jobs_c09}.get(prop, lambda t: [])(tier)
+    return {'C01': jobs_c01, 'C05': jobs_c05, 'C09': jobs_c09}.get(prop, lambda t: [])(tier)
+
+
+# ------------------------------------------------------------------------------------------------ C01: getitem_next of list nodes
+def opaque_seq(d):
+    """opaque content description -> (length term, element function k -> atom term)"""
+    if d['cls'] != 'opaque':
+        raise Unsupported('expected an opaque content, got %s' % d['cls'])
+    return d['length'], (lambda k: z3.Select(d['atoms'], k))
+
+
+def empty_tail_and_advanced(nc):
+    """Slice tail with no items (sealed) and the 'empty advanced' Index64 that Content::getitem starts with"""
+    tail = nc.m.record('tail', {0: (NULL, 8), 8: (NULL, 8), 16: (NULL, 8), 24: (BV(1, 8), 1)}, const=True)
+    cells = {}
+    nc.index_cells(cells, 0, NULL, BV(0), BV(0))
+    cells[48] = (BV(1, 8), 1)
+    adv = nc.m.record('advanced', cells, const=True)
+    return tail, adv
+
+
+LIST_GETITEM_KERNELS = []
+
+
+def build_list64(nc, lens, name='node'):
+    """ListArray64 over the opaque content: starts symbolic (any order, gaps, overlaps), stops = starts + the concrete lengths"""
+    n = len(lens)
+    fo, sz, al, fields = nc.layout_of('LA', '_ZNK7awkward11ListArrayOfIlE6lengthEv')
+    a0 = z3.Array(name + '_starts', z3.BitVecSort(64), z3.BitVecSort(64))
+    starts = [z3.Select(a0, BV(i)) for i in range(n)]
+    sarr = z3.K(z3.BitVecSort(64), BV(0))
+    for i, L in enumerate(lens):
+        sarr = z3.Store(sarr, BV(i), starts[i] + L)
+        nc.m.assume(starts[i] >= 0, starts[i] <= 2 ** 40, starts[i] + L <= nc.lencontent)
+    d1 = nc.m.array(name + '_starts', ('i', 64), n, const=True)
+    d2 = nc.m.array(name + '_stops', ('i', 64), n, const=True, arr=sarr)
+    cells = nc.content_header(name, nc.vptr_of('N7awkward11ListArrayOfIlEE', 'LA'))
+    nc.index_cells(cells, fo[1], d1, BV(0), BV(n))
+    nc.index_cells(cells, fo[2], d2, BV(0), BV(n))
+    cells.update({fo[3]: (nc.content0, 8), fo[3] + 8: (NULL, 8)})
+    this = nc.m.record(name, cells, const=True)
+    lists = [[Elem(z3.simplify(starts[i] + j)) for j in range(L)] for i, L in enumerate(lens)]
+    return this, lists, starts
+
+
+def list_node(nc, cls, lens):
+    """-> (this, lists, start term of each list, origin terms for `prefer`, short mangled class name)"""
+    if cls == 'ListOffsetArray64':
+        this, lists, offs = build_listoffset64(nc, list(lens))
+        nc.node_info = dict(cls=cls, offs=offs, lens=list(lens))
+        return this, lists, offs[:-1], offs, '17ListOffsetArrayOfIlE'
+    if cls == 'ListArray64':
+        this, lists, starts = build_list64(nc, list(lens))
+        nc.node_info = dict(cls=cls, starts=starts, lens=list(lens))
+        return this, lists, starts, (starts or [BV(0)]) + [nc.lencontent], '11ListArrayOfIlE'
+    if cls == 'RegularArray':
+        size, length = lens
+        this, lists = build_regular(nc, size, length)
+        nc.node_info = dict(cls=cls, size=size, length=length)
+        return this, lists, [BV(i * size) for i in range(length)], [BV(0), nc.lencontent], '12RegularArray'
+    raise Unsupported(cls)
+
+
+def node_lens(cls, lens):
+    return [lens[0]] * lens[1] if cls == 'RegularArray' else list(lens)
+
+
+def node_program(nc, model, lc):
+    """akrun program building the replayed node over content [0, 1, ...) and its Python value"""
+    info = nc.node_info
+    ev = lambda t: model.eval(t, model_completion=True).as_signed_long()
+    if info['cls'] == 'ListOffsetArray64':
+        ov = [ev(o) for o in info['offs']]
+        return 'i64 %s listoffset64 %s ' % (fullnative.ints(range(max(lc, ov[-1]))), fullnative.ints(ov)), [list(range(ov[i], ov[i + 1])) for i in range(len(ov) - 1)]
+    if info['cls'] == 'ListArray64':
+        sv = [ev(x) for x in info['starts']]
+        tv = [a + L for a, L in zip(sv, info['lens'])]
+        return 'i64 %s list64 %d %s %s ' % (fullnative.ints(range(max([lc] + tv))), len(sv), ' '.join(map(str, sv)), ' '.join(map(str, tv))), [list(range(a, b)) for a, b in zip(sv, tv)]
+    size, length = info['size'], info['length']
+    lc = max(lc, size * length)
+    if size > 0:
+        lc = min(lc, size * length + size - 1)
+    return 'i64 %s regular %d %d ' % (fullnative.ints(range(lc)), size, length), [list(range(i * size, (i + 1) * size)) for i in range(length)]
+
+
+@guard
+def h_getitem_next_at(cls, dims):
+    lens = dims
+    """x[:, at]: per list the item at (one negative wrap); an index out of range for any list raises and no data is returned"""
+    nc = NodeCtx(['LOA', 'LA', 'RA', 'IDX', 'CNT', 'UTL', 'KD', 'IDS', 'SLC'], [], unwind=max(8, len(lens) + 6))
+    this, lists, starts, offs, short = list_node(nc, cls, lens)
+    lens = node_lens(cls, lens)
+    tail, adv = empty_tail_and_advanced(nc)
+    at = nc.m.bv('at')
+    sl = nc.m.record('sliceat', {0: (nc.vptr_of('N7awkward7SliceAtE', 'SLC'), 8), 8: (at, 8)}, const=True)
+    nc.m.record('ret', {})
+    out = nc.m.call('_ZNK7awkward%s12getitem_nextERKNS_7SliceAtERKNS_5SliceERKNS_7IndexOfIlEE' % short, [Ptr('ret', 0), this, sl, tail, adv])
+    regs = [z3.If(at < 0, at + L, at) for L in lens]
+    inr = z3.And([z3.And(r >= 0, r < L) for r, L in zip(regs, lens)] + [z3.BoolVal(True)])
+    obls = [('raises exactly when the index is out of range for some list', z3.simplify(out.raised) != z3.Not(inr))]
+    okp = z3.And(inr, z3.Not(out.raised))
+    rp = nc.m.cell('ret', 0)
+    if rp is not None and any(q.obj is not None for g, q in nodeh.ptr_cases(rp)):
+        res = decode(nc, out.mem, rp)
+        ln, el = opaque_seq(res)
+        obls.append(('one item per list', z3.And(okp, ln != len(lens))))
+        for i, L in enumerate(lens):
+            obls.append(('item of list %d is element (at wrapped) of that list' % i, z3.And(okp, el(BV(i)) != starts[i] + regs[i])))
+
+    def replay(model, ent):
+        A = model.eval(at, model_completion=True).as_signed_long()
+        lc = model.eval(nc.lencontent, model_completion=True).as_signed_long()
+        if lc > 200:
+            return False, 'content too long to replay', {}
+        head, inp = node_program(nc, model, lc)
+        prog = head + 'getitem 2 range NONE NONE NONE at %d' % A
+        try:
+            exp = [lst[A] for lst in inp]
+        except IndexError:
+            exp = None
+        kind, got = fullnative.akrun(prog)
+        payload = dict(program=prog, native=[kind, got], expected=exp)
+        if exp is None:
+            if kind != 'ERR':
+                return True, '%s lists %s [:, %d]: index out of range, but the native library returns %s %s' % (cls, inp, A, kind, got), payload
+            return False, 'native library raises, as Python does', payload
+        if kind != 'OK' or got != exp:
+            return True, '%s lists %s [:, %d]: native library %s %s, Python gives %s' % (cls, inp, A, kind, str(got)[:150], exp), payload
+        return False, 'native library agrees (%s)' % got, payload
+    return mdischarge(nc.m, '%s::getitem_next(SliceAt) shape=%s' % (cls, ','.join(map(str, dims))), obls, [('in range', inr), ('negative in range', z3.And(inr, at < 0))] if lens and min(lens) > 0 else [],
+                      replay=replay, prefer=[at >= -6, at <= 6, nc.lencontent <= 24] + [o <= 20 for o in offs],
+                      extra=dict(bounds='list lengths %s concrete (case split); index any int64; offsets origin symbolic' % (lens,)))
+
+
+@guard
+def h_getitem_next_range(cls, dims, step):
+    lens = dims
+    """x[:, start:stop:step]: per list exactly the CPython slice of that list, in order; start / stop any int64 (None included)"""
+    from .c18 import slice_sel, KNONE
+    nc = NodeCtx(['LOA', 'LA', 'RA', 'IDX', 'CNT', 'UTL', 'KD', 'IDS', 'SLC'], [], unwind=max(10, sum(lens) + len(lens) + 6))
+    this, lists, starts, offs, short = list_node(nc, cls, lens)
+    lens = node_lens(cls, lens)
+    tail, adv = empty_tail_and_advanced(nc)
+    a, b = nc.m.bv('start'), nc.m.bv('stop')
+    sl = nc.m.record('slicerange', {0: (nc.vptr_of('N7awkward10SliceRangeE', 'SLC'), 8), 8: (a, 8), 16: (b, 8), 24: (BV(step), 8)}, const=True)
+    nc.m.record('ret', {})
+    out = nc.m.call('_ZNK7awkward%s12getitem_nextERKNS_10SliceRangeERKNS_5SliceERKNS_7IndexOfIlEE' % short, [Ptr('ret', 0), this, sl, tail, adv])
+    obls = [('a range never raises', out.raised)]
+    estep = 1 if step == KNONE else step
+    p = z3.BitVec('p!pos', 64)
+    for g, res in nodeh.decode_cases(nc, out.mem, nc.m.cell('ret', 0)):
+        g = z3.And(g, z3.Not(out.raised))
+        if res is None:
+            obls.append(('a result is returned', g))
+            continue
+        if res['cls'] == 'listoffset':
+            ro = res['offsets']
+            spans = [(ro[i], ro[i + 1] - ro[i]) for i in range(len(ro) - 1)]
+            extent = ro[-1] if ro else BV(0)
+            obls.append(('result offsets do not start below the carried content', z3.And(g, ro[0] < 0) if ro else z3.BoolVal(False)))
+        elif res['cls'] == 'regular':
+            n = concrete(res['length'], 'length of the regular result', under=g)
+            spans = [(res['size'] * i, res['size']) for i in range(n)]
+            extent = res['size'] * n
+        else:
+            raise Unsupported('result of a range slice is a %s' % res['cls'])
+        ln, el = opaque_seq(res['content'])
+        if len(spans) != len(lens):
+            obls.append(('one result list per list (%d, not %d)' % (len(lens), len(spans)), g))
+        else:
+            for i, L in enumerate(lens):
+                first, cnt = slice_sel(BV(L), a, b, estep)
+                obls.append(('list %d keeps exactly len(range(*slice.indices(len))) items' % i, z3.And(g, spans[i][1] != cnt)))
+                obls.append(('item p of result list %d is element first + p * step of list %d' % (i, i), z3.And(g, p >= 0, p < cnt, el(spans[i][0] + p) != starts[i] + first + p * estep)))
+            obls.append(('the result lists lie inside the carried content', z3.And(g, extent > ln)))
+
+    def replay(model, ent):
+        A, B = model.eval(a, model_completion=True).as_signed_long(), model.eval(b, model_completion=True).as_signed_long()
+        lc = model.eval(nc.lencontent, model_completion=True).as_signed_long()
+        if lc > 200:
+            return False, 'content too long to replay', {}
+        head, inp = node_program(nc, model, lc)
+        tok = lambda v: 'NONE' if v == KNONE else str(v)
+        prog = head + 'getitem 2 range NONE NONE NONE range %s %s %s' % (tok(A), tok(B), tok(step))
+        pyv = lambda v: None if v == KNONE else v
+        exp = [lst[slice(pyv(A), pyv(B), pyv(step))] for lst in inp]
+        return akrun_check(prog, exp, '%s lists %s [:, %s:%s:%s]' % (cls, inp, tok(A), tok(B), tok(step)))
+    small = lambda v: z3.Or(v == KNONE, z3.And(v >= -6, v <= 6))
+    return mdischarge(nc.m, '%s::getitem_next(SliceRange) shape=%s step=%s' % (cls, ','.join(map(str, dims)), 'None' if step == KNONE else step), obls,
+                      [('non-zero offset origin', offs[0] > 0)] if cls != 'RegularArray' else [('negative start', a < 0)], replay=replay, prefer=[small(a), small(b), nc.lencontent <= 24] + [o <= 20 for o in offs],
+                      extra=dict(bounds='list lengths %s and step %s concrete (case split); start, stop any int64 incl. None; offsets origin symbolic' % (lens, step)))
+
+
+@guard
+def h_getitem_next_array(cls, dims, nidx):
+    lens = dims
+    """x[:, [i0, i1, ...]] (one integer array, not advanced): per list the items at the wrapped indexes, in index order; any index out of range
+    for any list raises"""
+    nc = NodeCtx(['LOA', 'LA', 'RA', 'IDX', 'CNT', 'UTL', 'KD', 'IDS', 'SLC'], [], unwind=max(10, len(lens) * nidx + nidx + 8))
+    this, lists, starts, offs, short = list_node(nc, cls, lens)
+    lens = node_lens(cls, lens)
+    tail, adv = empty_tail_and_advanced(nc)
+    data = nc.m.array('slicedata', ('i', 64), nidx, const=True)
+    a0 = z3.Array('slicedata', z3.BitVecSort(64), z3.BitVecSort(64))
+    iv = [z3.Select(a0, BV(k)) for k in range(nidx)]
+    shape = nc.m.record('sliceshape', {0: (BV(nidx), 8)}, const=True)           # std::vector<int64_t> buffers as records (copied cell-wise)
+    strides = nc.m.record('slicestrides', {0: (BV(1), 8)}, const=True)
+    cells = {0: (nc.vptr_of('N7awkward12SliceArrayOfIlEE', 'SLC'), 8)}
+    nc.index_cells(cells, 8, data, BV(0), BV(nidx))
+    cells.update({64: (shape, 8), 72: (Ptr('sliceshape', 8), 8), 80: (Ptr('sliceshape', 8), 8),
+                  88: (strides, 8), 96: (Ptr('slicestrides', 8), 8), 104: (Ptr('slicestrides', 8), 8), 112: (BV(0, 8), 1)})
+    sl = nc.m.record('slicearray', cells, const=True)
+    nc.m.record('ret', {})
+    out = nc.m.call('_ZNK7awkward%s12getitem_nextERKNS_12SliceArrayOfIlEERKNS_5SliceERKNS_7IndexOfIlEE' % short, [Ptr('ret', 0), this, sl, tail, adv])
+    regs = [[z3.If(v < 0, v + L, v) for v in iv] for L in lens]
+    inr = z3.And([z3.And(r >= 0, r < L) for rs, L in zip(regs, lens) for r in rs] + [z3.BoolVal(True)])
+    obls = [('raises exactly when some index is out of range for some list', z3.simplify(out.raised) != z3.Not(inr))]
+    okp = z3.And(inr, z3.Not(out.raised))
+    rp = nc.m.cell('ret', 0)
+    if rp is not None and any(q.obj is not None for g, q in nodeh.ptr_cases(rp)):
+        res = decode(nc, out.mem, rp)
+        got = value(res)
+        want = [[Elem(starts[i] + regs[i][k]) for k in range(nidx)] for i in range(len(lens))]
+        obls += [(n, z3.And(okp, c)) for n, c in compare(got, want)]
+
+    def replay(model, ent):
+        vals = [model.eval(v, model_completion=True).as_signed_long() for v in iv]
+        lc = model.eval(nc.lencontent, model_completion=True).as_signed_long()
+        if lc > 200:
+            return False, 'content too long to replay', {}
+        head, inp = node_program(nc, model, lc)
+        prog = head + 'getitem 2 range NONE NONE NONE array %s' % fullnative.ints(vals)
+        try:
+            exp = [[lst[v] for v in vals] for lst in inp]
+        except IndexError:
+            exp = None
+        kind, got = fullnative.akrun(prog)
+        payload = dict(program=prog, native=[kind, got], expected=exp)
+        if exp is None:
+            if kind != 'ERR':
+                return True, '%s lists %s [:, %s]: an index is out of range, but the native library returns %s %s' % (cls, inp, vals, kind, got), payload
+            return False, 'native library raises, as Python does', payload
+        if kind != 'OK' or got != exp:
+            return True, '%s lists %s [:, %s]: native library %s %s, Python gives %s' % (cls, inp, vals, kind, str(got)[:150], exp), payload
+        return False, 'native library agrees (%s)' % got, payload
+    return mdischarge(nc.m, '%s::getitem_next(SliceArray64) shape=%s n=%d' % (cls, ','.join(map(str, dims)), nidx), obls, [('all in range', inr)] if lens and min(lens) > 0 else [],
+                      replay=replay, prefer=[z3.And(v >= -6, v <= 6) for v in iv] + [nc.lencontent <= 24] + [o <= 20 for o in offs],
+                      extra=dict(bounds='list lengths %s and %d index entries (case split); index values any int64; offsets origin symbolic' % (lens, nidx)))
+
+
+def jobs_c01(tier):
+    from .c18 import KNONE
+    js = []
+    shapes = [(2,), (0, 3), (2, 1, 3)] if tier == 'quick' else [l for n in (1, 2, 3) for l in itertools.product(range(4), repeat=n)]
+    steps = (-2, -1, 1, 2) if tier == 'quick' else (-3, -2, -1, 1, 2, 3)     # SliceRange's constructor turns a None step into 1
+    regs = [(2, 2), (0, 2), (3, 1)] if tier == 'quick' else [(s_, l_) for s_ in range(4) for l_ in range(3)]
+    for cls in ('ListOffsetArray64', 'ListArray64', 'RegularArray'):
+        for lens in (regs if cls == 'RegularArray' else shapes):
+            js.append((h_getitem_next_at, (cls, lens), 600))
+            for s in steps:
+                js.append((h_getitem_next_range, (cls, lens, s), 600))
+            for nidx in (1, 2):
+                js.append((h_getitem_next_array, (cls, lens, nidx), 600))
+    return js
